@@ -9,6 +9,7 @@ import (
 	"hash/adler32"
 	"io"
 	"net"
+	"runtime"
 	"strconv"
 	"strings"
 	"sync"
@@ -24,7 +25,7 @@ const limit = 1 << 20 // what the PROPERTY says (1 MiB), not what the code says
 func init() {
 	h.Register(&h.Prop{
 		ID:     "C15",
-		Rule:   "cases: rde (the rd cases over a transport whose last Read returns bytes together with io.EOF), inter (two connections read concurrently under a scripted interleaving of their Read calls), rd (explicit short stream × every 2-split / 1-byte / random chunking, EOF at every offset), rdseq (≤50 frames), syn (lengths 1..5, 2^k-1,2^k,2^k+1 ≤ 2^20+1, headers 0 and > limit), wr; non-trivial = stream is delivered in ≥2 chunks or is malformed (truncated / zero / oversize header); distinct = distinct case line",
+		Rule:   "cases: rdz (Reads returning 0 bytes and no error in between), rde (the rd cases over a transport whose last Read returns bytes together with io.EOF), inter (two connections read concurrently under a scripted interleaving of their Read calls), rd (explicit short stream × every 2-split / 1-byte / random chunking, EOF at every offset), rdseq (≤50 frames), syn (lengths 1..5, 2^k-1,2^k,2^k+1 ≤ 2^20+1, headers 0 and > limit), wr; non-trivial = stream is delivered in ≥2 chunks or is malformed (truncated / zero / oversize header); distinct = distinct case line",
 		Gen:    gen,
 		Exec:   exec,
 		Shrink: shrinkLine,
@@ -39,12 +40,17 @@ type sconn struct {
 	wsizes  []int
 	wi      int
 	wcalls  int
+	zeroOK  bool // an empty chunk of the script is a Read that returns (0, nil) instead of being skipped
 	eofData bool // the Read that empties the transport returns its bytes TOGETHER with io.EOF (io.Reader allows it)
 }
 
 func (c *sconn) Read(b []byte) (int, error) {
 	if len(b) > c.maxReq {
 		c.maxReq = len(b)
+	}
+	if c.zeroOK && len(c.chunks) > 0 && len(c.chunks[0]) == 0 {
+		c.chunks = c.chunks[1:]
+		return 0, nil
 	}
 	for len(c.chunks) > 0 && len(c.chunks[0]) == 0 {
 		c.chunks = c.chunks[1:]
@@ -117,6 +123,29 @@ func chunk(bs []byte, sizes []int) [][]byte {
 	return out
 }
 
+// chunkZ is chunk with size 0 meaning "a Read that returns no bytes and no error" (an empty chunk)
+func chunkZ(bs []byte, sizes []int) [][]byte {
+	pos := false
+	for _, k := range sizes {
+		pos = pos || k > 0
+	}
+	if !pos {
+		return chunk(bs, nil)
+	}
+	var out [][]byte
+	i := 0
+	for len(bs) > 0 {
+		k := sizes[i%len(sizes)]
+		i++
+		if k > len(bs) {
+			k = len(bs)
+		}
+		out = append(out, bs[:k])
+		bs = bs[k:]
+	}
+	return out
+}
+
 func csv(s string) []int {
 	if s == "-" {
 		return nil
@@ -157,6 +186,28 @@ func errKind(err error) string {
 		return "size"
 	}
 	return "other:" + h.OneLine(s)
+}
+
+// readMeasured runs the real readFrom and reports how many bytes the process allocated meanwhile
+// (cases run one at a time; the scripted connection allocates nothing in Read).
+func readMeasured(c net.Conn) (got []byte, err error, alloc uint64) {
+	var m0, m1 runtime.MemStats
+	runtime.ReadMemStats(&m0)
+	got, err = p2p.VerifReadFrom(c)
+	runtime.ReadMemStats(&m1)
+	return got, err, m1.TotalAlloc - m0.TotalAlloc
+}
+
+// oracleAlloc: "a header announcing zero or more than 1 MiB is rejected before any payload-sized allocation"
+func oracleAlloc(stream []byte, alloc uint64) string {
+	if len(stream) < 4 {
+		return ""
+	}
+	size := uint64(binary.BigEndian.Uint32(stream[:4]))
+	if size > limit && alloc >= size/2 {
+		return fmt.Sprintf("badsize-allocated: header %d rejected, but %d bytes were allocated on the way", size, alloc)
+	}
+	return ""
 }
 
 // oracleRead evaluates the property itself on one read of `stream` (independent of the model).
@@ -285,8 +336,11 @@ func exec(line string) (res h.Result) {
 		stream, sizes := h.UnHex(w[1]), csv(w[2])
 		c := &sconn{chunks: chunk(stream, sizes)}
 		nch := len(c.chunks)
-		got, err := p2p.VerifReadFrom(c)
+		got, err, alloc := readMeasured(c)
 		res.Oracle = oracleRead(stream, got, err, c.rest(), c.maxReq)
+		if res.Oracle == "" {
+			res.Oracle = oracleAlloc(stream, alloc)
+		}
 		if err != nil {
 			res.Impl = fmt.Sprintf("err %s req=%d", errKind(err), c.maxReq)
 			res.Class = "rd-err-" + errKind(err)
@@ -296,6 +350,22 @@ func exec(line string) (res h.Result) {
 			res.Class = "rd-ok"
 			res.Nontrivial = nch >= 2
 		}
+	case "rdz":
+		// size 0 in the script = a Read that returns (0, nil): the loops just call Read again
+		stream, sizes := h.UnHex(w[1]), csv(w[2])
+		c := &sconn{chunks: chunkZ(stream, sizes), zeroOK: true}
+		got, err := p2p.VerifReadFrom(c)
+		if o := oracleRead(stream, got, err, c.rest(), c.maxReq); o != "" {
+			res.Oracle = "zeroread-" + o
+		}
+		if err != nil {
+			res.Impl = fmt.Sprintf("err %s req=%d", errKind(err), c.maxReq)
+			res.Class = "rdz-err-" + errKind(err)
+		} else {
+			res.Impl = fmt.Sprintf("ok %s rest=%s req=%d", h.Hex(got), h.Hex(c.rest()), c.maxReq)
+			res.Class = "rdz-ok"
+		}
+		res.Nontrivial = true
 	case "rde":
 		// the transport hands out its last bytes together with io.EOF (n > 0, err != nil in one Read)
 		stream, sizes := h.UnHex(w[1]), csv(w[2])
@@ -359,8 +429,11 @@ func exec(line string) (res h.Result) {
 		stream := append(append(pre[:], syn(n, a, b)...), extra...)
 		c := &sconn{chunks: chunk(stream, sizes)}
 		nch := len(c.chunks)
-		got, err := p2p.VerifReadFrom(c)
+		got, err, alloc := readMeasured(c)
 		res.Oracle = oracleRead(stream, got, err, c.rest(), c.maxReq)
+		if res.Oracle == "" {
+			res.Oracle = oracleAlloc(stream, alloc)
+		}
 		if err != nil {
 			res.Impl = fmt.Sprintf("err %s req=%d", errKind(err), c.maxReq)
 			res.Class = "syn-err-" + errKind(err)
@@ -454,13 +527,18 @@ func gen(tier string, rng *h.Rng, emit func(string)) {
 			both(fmt.Sprintf("%s %d", h.Hex(s[:cut]), 1+rng.Intn(5)))
 			if cut > 4 {
 				emit(fmt.Sprintf("rde %s %d,%d", h.Hex(s[:cut]), 4, len(s))) // header, then the short tail WITH the EOF
-				emit(fmt.Sprintf("rde %s -", h.Hex(s[:cut])))                  // everything in one Read with the EOF
+				emit(fmt.Sprintf("rde %s -", h.Hex(s[:cut])))                // everything in one Read with the EOF
 			}
 		}
 		for j := 0; j < 4; j++ {
 			sz := []int{1 + rng.Intn(4), 1 + rng.Intn(9), 1 + rng.Intn(3)}
 			both(fmt.Sprintf("%s %s", h.Hex(s), csvOf(sz)))
 		}
+		// Reads that return (0, nil) in between (before the header, inside it, between header and body, inside the body)
+		emit(fmt.Sprintf("rdz %s 0,1", h.Hex(s)))
+		emit(fmt.Sprintf("rdz %s 0,0,3,0", h.Hex(s)))
+		emit(fmt.Sprintf("rdz %s 4,0,%d,0", h.Hex(s), n))
+		emit(fmt.Sprintf("rdz %s 0,2,0,2,0,1", h.Hex(s[:len(s)/2])))
 	}
 	// 2. zero / oversize / boundary headers
 	for _, hdr := range []uint32{0, limit + 1, limit + 2, 1 << 21, 1 << 24, 1 << 31, 0xFFFFFFFF, 0x80000000, 0xFFFFFFFE} {
@@ -470,6 +548,21 @@ func gen(tier string, rng *h.Rng, emit func(string)) {
 		emit(fmt.Sprintf("rd %s -", h.Hex(s)))
 		emit(fmt.Sprintf("rd %s 1", h.Hex(s)))
 		emit(fmt.Sprintf("rd %s 2,3", h.Hex(s)))
+	}
+	// 2b. headers that are small numbers once a high bit is masked off (a reader that masks the decoded size
+	// would accept them), followed by a payload of that small length
+	for _, k := range []uint32{1, 2, 5} {
+		for _, bit := range []uint32{1 << 31, 1 << 30, 1 << 24, 1 << 21} {
+			var pre [4]byte
+			binary.BigEndian.PutUint32(pre[:], bit|k)
+			s := append(pre[:], rng.Bytes(int(k))...)
+			emit(fmt.Sprintf("rd %s -", h.Hex(s)))
+			emit(fmt.Sprintf("rd %s 4,1", h.Hex(s)))
+		}
+	}
+	// 2c. writes far over the limit whose length is small once high bits are masked off
+	for _, n := range []int{1<<21 + 5, 1<<21 + 1<<20 + 1, 1 << 22} {
+		emit(fmt.Sprintf("wr %d 3 1", n))
 	}
 	// 3. the length catalogue of the property
 	lens := []int{1, 2, 3, 4, 5}
